@@ -74,6 +74,8 @@ def check_record(chk, r, rp, inp, tol, impl):
         tot = [Fraction(0)] * 3
         div = Fraction(0)
         amax = Fraction(0)
+        skipped = Fraction(0)
+        diam = 2 * sum(abs(w) for w in inp.nw[:d])     # |face centroid - generator| of a cell is below twice the box extent
         ok = True
         for k in conn[c.off:c.off + c.cnt]:
             f = faces[k]
@@ -84,6 +86,9 @@ def check_record(chk, r, rp, inp, tol, impl):
                 # a face of negligible area: its centroid is 0/0 (the code reports the origin), which for a box far from the
                 # origin would turn a rounding-level area into a visible term; its true contribution is below the tolerance
                 chk.extra_cov['negligible_faces_skipped_in_closure'] = chk.extra_cov.get('negligible_faces_skipped_in_closure', 0) + 1
+                # ... but "below the area tolerance" times the distance of the face from the generator need not be below the
+                # volume tolerance (a 0.3-long diagonal edge in a box of width 3e5): bound what the skipped faces can contribute
+                skipped += abs(f.area)
                 continue
             if f.left == i:
                 n, cen = f.normal, f.centroid
@@ -96,9 +101,9 @@ def check_record(chk, r, rp, inp, tol, impl):
         if not ok:
             continue
         onwall = ' gen-on-wall' if gen_on_wall(inp, i) else ''
-        if max(abs(x) for x in tot) > tol.area * 100:
+        if max(abs(x) for x in tot) > tol.area * 100 + skipped:
             chk.violation('impl-vs-oracle', 'area-weighted outward normals of cell %d sum to %s instead of 0 %s' % (i, fl3(tot), where), rp, key='closure' + onwall + clu)
-        if abs(div / d - c.volume) > tol.vol * 100:
+        if abs(div / d - c.volume) > tol.vol * 100 + skipped * diam / d:
             chk.violation('impl-vs-oracle', 'divergence theorem fails for cell %d: (1/d) sum area n.(c-g) = %s, volume = %s %s' % (i, fl(div / d), fl(c.volume), where), rp, key='divergence' + onwall + clu)
 
 
